@@ -418,7 +418,10 @@ pub fn run_c10(cx: &Ctx) -> i32 {
         });
         t
     });
-    let t = Tally::merge_all(tallies);
+    let mut t = Tally::merge_all(tallies);
+    let tcf = crate::casefold::iter_sweep();
+    t.count("casefold_iteration_sweep_runs", tcf.evaluations);
+    t.merge(tcf);
     let transitions = *t.counters.get("transitions").unwrap_or(&0);
     let evals = t.evaluations;
     finish(
@@ -426,8 +429,8 @@ pub fn run_c10(cx: &Ctx) -> i32 {
         t,
         Finish {
             rule: format!(
-                "every pattern of {} x every text over {:?} up to length {} and every text over [a, euro sign, emoji] up to length 2 and U+0E01 / U+D7FF / U+FFFD / U+10FFFF alone, after and before an a (every UTF-8 lead-byte class) x limits 0..5; split and splitn are driven to None and polled twice more (fusedness); oracle: pieces = gaps between consecutive find_iter matches (one more piece than matches), interleaving pieces and matched texts rebuilds the input byte for byte, splitn(n) = min(n, pieces) items: the first n-1 of split and the untouched remainder, n = 0 yields nothing; error histories (VM patterns under backtrack limits 0, 1, 2 whose find_iter ends in an Err): split still yields one more piece than there are matches - the gaps between the matches found, exactly one Err, then the rest of the text - and does not panic; non-trivial = (pattern,text) with at least one match",
-                space.describe(), alphabet, max_len
+                "{}; every pattern of {} x every text over {:?} up to length {} and every text over [a, euro sign, emoji] up to length 2 and U+0E01 / U+D7FF / U+FFFD / U+10FFFF alone, after and before an a (every UTF-8 lead-byte class) x limits 0..5; split and splitn are driven to None and polled twice more (fusedness); oracle: pieces = gaps between consecutive find_iter matches (one more piece than matches), interleaving pieces and matched texts rebuilds the input byte for byte, splitn(n) = min(n, pieces) items: the first n-1 of split and the untouched remainder, n = 0 yields nothing; error histories (VM patterns under backtrack limits 0, 1, 2 whose find_iter ends in an Err): split still yields one more piece than there are matches - the gaps between the matches found, exactly one Err, then the rest of the text - and does not panic; non-trivial = (pattern,text) with at least one match",
+                crate::casefold::describe_iter(), space.describe(), alphabet, max_len
             ),
             exhaustive: true,
             bounds: jobj! {"space" => space.describe(), "max_text_len" => max_len, "limits" => "0..5"},
